@@ -176,6 +176,13 @@ func main() {
 				sets = append(sets, []string{t})
 			}
 		}
+		// templates whose static text carries percent-escapes (the router half of C12: every
+		// equivalent spelling of a request reaches the same operation); handled by a dedicated part
+		// of the driver
+		sets = append(sets,
+			[]string{"/a%20b"}, []string{"/caf%C3%A9"}, []string{"/c%2Fd"}, []string{"/q%3Fr"}, []string{"/x%7Ey"}, []string{"/a%20b/{p}"}, []string{"/%C3%A9/{p}/z%2Fz"},
+			[]string{"/a%20b", "/a%2Fb"}, []string{"/s%25t"},
+		)
 		// hand-picked regression shapes (each found a defect in the spike)
 		sets = append(sets,
 			[]string{"/a/foo/{y}", "/a/{x}/q/baz"},
